@@ -56,6 +56,21 @@ def run(m: Model, r: Report, tier: str) -> None:
     r.rule("R7", "dynamic routing anchors: response id = service id + 0x40, 0x7F routed to NegativeResponse, unknown to raw", floor=4)
     r.rule("R8", "the database stores request.pdu / response.pdu through a non-truncating representation", floor=2)
     r.rule("R9", "named fields sit at the ISO 14229-1 positions (sub-byte packing, order of equal-width neighbours, repeated groups)", floor=25)
+    r.rule("R10", "the response-code and service-id tables equal ISO 14229-1 (a wrong entry makes a genuine negative response undecodable, a reserved "
+           "code acceptable, or routes a reply to the wrong classes)", floor=4)
+    from sa.uds_rules import iso_tables
+    iso_tables(m, r, "R10", "both")
+    r.rule("R11", "the declared length envelope of every response class covers the ISO 14229-1 envelope (a valid reply is not refused for its length)", floor=34)
+    for p_ in reg.pairs:
+        if p_.response is None or p_.service_id is None:
+            continue
+        key_ = (p_.service_id, p_.sub_function_id) if (p_.service_id, p_.sub_function_id) in iso14229.RESP else (p_.service_id, None)
+        if key_ not in iso14229.RESP:
+            continue
+        _sh, iso_min_, iso_max_ = iso14229.RESP[key_]
+        mn_, mx_ = m.class_kw(p_.response, "minimal_length"), m.class_kw(p_.response, "maximal_length")
+        r.check(isinstance(mn_, int) and mn_ <= iso_min_ and (mx_ is None or (iso_max_ is not None and mx_ >= iso_max_)), "R11", f"{p_.response.qualname}#envelope",
+                f"declared lengths {mn_}..{mx_} do not cover the ISO envelope {iso_min_}..{iso_max_}: valid replies are refused as malformed", loc=p_.response.loc)
     from sa.codec import field_placement
     field_placement(m, r, "R9", ca, list(reg.registered_responses()), iso14229.FIELD_PLACEMENT)
 
